@@ -316,3 +316,91 @@ Theorem C13_conc_overlap_data_miss :
   clp s = LDone false /\ cfile s = None.
 Proof. exact conc_overlap_data_miss. Qed.
 Print Assumptions C13_conc_overlap_data_miss.
+
+(* ---- on the source as translated: Gen/CacheSrc.v is made from cache/cache.go by harness/go2coq on
+   every run; CacheTrim/SrcFacts.v proves the segments of used / Trim / trimSubdir equal to the
+   tests of the model above *)
+From GI Require Import Lib.GoSem Lib.GoSemSeg.
+From GI Require Cache.SrcLib Gen.CacheSrc CacheTrim.SrcFacts TxtarWrite.Path.
+Import SrcLib CacheSrc SrcFacts.
+
+(* the body of  if data, err := lockedfile.Read(trim.txt); err == nil { ... }  of Trim as translated
+   (ParseInt(TrimSpace(data)), time.Unix(t, 0), now.Sub, the two comparisons): it returns nil iff
+   the model's trim_due is false *)
+Theorem C13_source_due_eq : forall now data,
+  src_Cache_Trim_due (time_of_ns now) data = Ok (if trim_due now (Some data) then Normal tt else Return false).
+Proof. exact src_Trim_due_eq. Qed.
+Print Assumptions C13_source_due_eq.
+
+(* window exactness of the source's arithmetic: a parsable record t stops the scan iff
+   -mtimeInterval < now - t*10^9 < trimInterval, for every int64 t *)
+Theorem C13_source_window_exact : forall now data t, clock_ok now -> parse_int (trim_space data) = Some t ->
+  src_Cache_Trim_due (time_of_ns now) data =
+    Ok (if (now - t * nano <? trim_interval) && (now - t * nano >? - mtime_interval) then Return false else Normal tt).
+Proof. exact src_Trim_window_exact. Qed.
+Print Assumptions C13_source_window_exact.
+
+Theorem C13_source_due_window : forall now data, clock_ok now ->
+  (src_Cache_Trim_due (time_of_ns now) data = Ok (Return false) <-> record_in_window now (Some data)) /\
+  (src_Cache_Trim_due (time_of_ns now) data = Ok (Normal tt) <-> record_stale now (Some data)).
+Proof. exact src_Trim_due_window. Qed.
+Print Assumptions C13_source_due_window.
+
+(* a record that does not parse never stops the scan *)
+Theorem C13_source_corrupt_runs : forall now data, parse_int (trim_space data) = None ->
+  src_Cache_Trim_due (time_of_ns now) data = Ok (Normal tt).
+Proof. exact src_Trim_corrupt. Qed.
+Print Assumptions C13_source_corrupt_runs.
+
+(* cutoff := now.Add(-trimLimit - mtimeInterval) as translated is the model's cutoff, the instant
+   now - trimLimit - mtimeInterval *)
+Theorem C13_source_cutoff_eq : forall now,
+  src_Cache_Trim_cutoff (time_of_ns now) = Ok (Normal (trim_cutoff now)).
+Proof. exact src_Trim_cutoff_eq. Qed.
+Print Assumptions C13_source_cutoff_eq.
+
+Theorem C13_source_cutoff_exact : forall now, clock_ok now ->
+  src_Cache_Trim_cutoff (time_of_ns now) = Ok (Normal (time_of_ns (now - trim_limit - mtime_interval))).
+Proof. exact src_Trim_cutoff_exact. Qed.
+Print Assumptions C13_source_cutoff_exact.
+
+(* trimSubdir as translated: only names ending in -a / -d are looked at, and the file found by Stat
+   is removed iff its mtime is before the cutoff; together: the model's trim_removes *)
+Theorem C13_source_candidate_eq : forall subdir name,
+  src_Cache_trimSubdir_candidate subdir name =
+    Ok (if is_entry_name name then Normal (Path.join subdir name) else Continue tt).
+Proof. exact src_trimSubdir_candidate_eq. Qed.
+Print Assumptions C13_source_candidate_eq.
+
+Theorem C13_source_stale_exact : forall now mtime, clock_ok now -> ns_ok mtime ->
+  src_Cache_trimSubdir_stale (trim_cutoff now) (time_of_ns mtime) false =
+    Ok (mtime <? now - trim_limit - mtime_interval).
+Proof. exact src_trimSubdir_stale_exact. Qed.
+Print Assumptions C13_source_stale_exact.
+
+Theorem C13_source_trim_removes : forall cutoff o,
+  trim_removes cutoff o =
+    match src_Cache_trimSubdir_candidate [] (oname o),
+          src_Cache_trimSubdir_stale cutoff (time_of_ns (omtime o)) (negb (stat_ok (okind_of o))) with
+    | Ok (Normal _), Ok true => remove_ok (okind_of o)
+    | _, _ => false
+    end.
+Proof. exact trim_removes_src. Qed.
+Print Assumptions C13_source_trim_removes.
+
+(* used as translated leaves the mtime alone iff Stat succeeded and the file is less than
+   mtimeInterval old; the model's used_obj is Stat, this test, Chtimes *)
+Theorem C13_source_used_exact : forall u m, clock_ok u -> ns_ok m ->
+  src_Cache_used_fresh (time_of_ns m) false (time_of_ns u) =
+    Ok (if u - m <? mtime_interval then Return tt else Normal tt).
+Proof. exact src_used_fresh_exact. Qed.
+Print Assumptions C13_source_used_exact.
+
+Theorem C13_source_used_obj : forall now o,
+  used_obj now o =
+    match src_Cache_used_fresh (time_of_ns (omtime o)) (negb (stat_ok (okind_of o))) (time_of_ns now) with
+    | Ok (Return _) => o
+    | _ => if stat_ok (okind_of o) then set_mtime now o else o
+    end.
+Proof. exact used_obj_src. Qed.
+Print Assumptions C13_source_used_obj.
